@@ -70,6 +70,34 @@ func (c *Ctx) assume(f string) {
 	if f == "true" {
 		return
 	}
+	// conjunctions are asserted conjunct by conjunct (also under a guard), so that
+	// the per-obligation slicing of assumptions works on single facts
+	if strings.Contains(f, "(txt ") {
+		if strings.HasPrefix(f, "(and ") {
+			if parts := splitTopLevel(f[1 : len(f)-1]); len(parts) > 2 {
+				for _, p := range parts[1:] {
+					c.assume(p)
+				}
+				return
+			}
+		}
+		if strings.HasPrefix(f, "(=> ") {
+			if parts := splitTopLevel(f[1 : len(f)-1]); len(parts) == 3 && (strings.HasPrefix(parts[2], "(and ") || strings.HasPrefix(parts[2], "(=> ")) {
+				if strings.HasPrefix(parts[2], "(and ") {
+					if cs := splitTopLevel(parts[2][1 : len(parts[2])-1]); len(cs) > 2 {
+						for _, p := range cs[1:] {
+							c.assume(fmt.Sprintf("(=> %s %s)", parts[1], p))
+						}
+						return
+					}
+				} else if in := splitTopLevel(parts[2][1 : len(parts[2])-1]); len(in) == 3 && strings.HasPrefix(in[2], "(and ") {
+					// (=> a (=> b (and ...)))  ==  (=> (and a b) (and ...))
+					c.assume(fmt.Sprintf("(=> (and %s %s) %s)", parts[1], in[1], in[2]))
+					return
+				}
+			}
+		}
+	}
 	c.decls = append(c.decls, "(assert "+f+")")
 }
 
